@@ -613,6 +613,41 @@ def r_undo(prog, R):
     r.require(nsites >= 6, "fewer hash-table insert sites than confirmed by hand (%d)" % nsites)
 
 
+_ALLOCS = ("ares_strdup", "ares_malloc", "ares_malloc_zero", "ares_buf_create", "ares_llist_create", "ares_array_create", "ares_slist_create")
+
+
+def r_allocchk(prog, R):
+    r = R.rule("R-C14-ALLOCCHK", "the result of an allocation stored into a member of an object is tested in the function that stores it: an untested NULL member is later read as "
+               "'empty' (the compression table's name) or dereferenced, i.e. an allocation failure is not reported but turned into wrong output", floor=60,
+               analysis="every `obj->member = <allocator>(..)` store in src/lib; the member must occur in a branch condition of the same function (76 of 77 sites did on the pinned tree; the "
+                        "77th was the defect)")
+    n = 0
+    for f in sorted(prog.funcs.values(), key=lambda x: x.key):
+        if not f.file.startswith("src/lib/"):
+            continue
+        conds = None
+        for b, i, el in f.elements():
+            if el["k"] != "asg" or el["e"]["op"] != "=":
+                continue
+            l, rr = strip(el["e"]["l"]), strip(el["e"].get("r"))
+            if l is None or l.get("k") != "mem" or rr is None or rr.get("k") != "call":
+                continue
+            c = f.call_by_id(rr["id"])[2] if rr.get("ref") else rr
+            if c.get("callee") not in _ALLOCS:
+                continue
+            n += 1
+            if conds is None:
+                conds = [render(f.branch(blk)[0]) for blk in f.blocks.values() if f.branch(blk)]
+            lt = render(l)
+            k = "fn=%s %s tested after %s" % (f.name, lt, c["callee"])
+            if any(lt in ct for ct in conds):
+                r.ok(k, f.loc(el))
+            else:
+                r.viol(k, f.name, f.loc(el), "%s stores the result of %s in %s and never tests it: when that allocation fails the function reports success with a NULL member, which its readers take for an "
+                       "empty value or dereference" % (f.name, c["callee"], lt))
+    r.info["sites"] = n
+
+
 def run(prog, R, tier):
     R.assume("a store into a struct field transfers ownership iff the library releases objects through that field somewhere (inferred), plus 9 container link fields")
     files = None if tier == "thorough" else ANCHORED
@@ -625,5 +660,6 @@ def run(prog, R, tier):
     r_allocout(prog, R)
     r_registered(prog, R)
     r_undo(prog, R)
+    r_allocchk(prog, R)
     E = effects.Effects(prog)
     C01.r_once(prog, R, E, rid="R-C14-ONCE")
